@@ -50,6 +50,7 @@ if confirmed:
         print("check %s: %s in %.0fs %s" % (pid, verdict, time.time() - t0, viol[:1]))
     finally:
         sh("git -C /repo checkout -- .")
+        sh("git -C /verif checkout -- evidence/")  # evidence files must come from runs on the unchanged tree
     d = os.path.join("/verif/seeded", sid)
     os.makedirs(d, exist_ok=True)
     shutil.copyfile(diff, os.path.join(d, "patch.diff"))
